@@ -95,6 +95,23 @@ FILE_ONLY = [
     ("lcom", "medium_threshold", 5, [3, 9], lambda d: d["lcom"]["Config"]["mediumThreshold"]),
 ]
 
+# LIST-valued configuration keys (replace semantics: the list in the file IS the effective list). A list-valued key is one of "every key" of
+# the quantifier; its value dimension is the set of lists over the key's universe of valid members: equal to the default list, a sub-list of
+# the default, and lists with members that are NOT part of the default.
+# (section, key, universe of valid members, documented default (as a set), reader of the effective list -> list of member names)
+LIST_KEYS = [
+    ("clones", "enabled_clone_types", ["type1", "type2", "type3", "type4"], ["type1", "type2", "type4"],
+     lambda d: ["type%d" % t for t in d["clone"]["request"]["clone_types"]]),
+]
+
+
+def sublists(universe):
+    """every non-empty combination of the members, in the universe's order"""
+    out = []
+    for m in range(1, 1 << len(universe)):
+        out.append([u for i, u in enumerate(universe) if m >> i & 1])
+    return out
+
 
 def near_default(default):
     """values that DIFFER from the default but lie next to it (the 'different from the default' side of the value dimension, at its
@@ -141,7 +158,8 @@ def run(tier, seed, replay=None):
         "TOML parsing (go-toml) is trusted; configuration values are written as TOML literals, flag values as command-line strings",
     ]
     hist = {"cells_both": 0, "cells_file_only": 0, "discovery_cases": 0, "init_cases": 0, "check_cells": 0, "near_default_values": 0, "cells_near_default": 0,
-            "discovery_via_link": 0, "explicit_config_cases": 0, "check_via_link": 0}
+            "discovery_via_link": 0, "explicit_config_cases": 0, "check_via_link": 0,
+            "cells_list_key": 0, "list_values_with_non_default_member": 0, "list_values_equal_default": 0, "list_values_reordered": 0, "list_pairs_checked": 0}
     nontrivial = set()
     tmp = tempfile.mkdtemp(prefix="pv_c17_")
     try:
@@ -210,6 +228,60 @@ def run(tier, seed, replay=None):
                         res.known_finding(k, "(%s)" % what)
                     else:
                         res.violation(what, {"signature": sig, "config": cfg, "source": SRC})
+        # ---- list-valued keys: key absent -> the default list; key present -> exactly the list in the file, for EVERY non-empty combination of the
+        #      valid members (incl. the default list itself, its sub-lists, and lists with members outside the default), in both kinds of file.
+        #      A list of enabled kinds is compared as a SET (the property fixes which value is effective, not an order of its members).
+        for section, key, universe, default, read in LIST_KEYS:
+            try:
+                dflt = read(base)
+            except Exception:
+                dflt = None
+            if dflt is None or sorted(dflt) != sorted(default):
+                res.violation("C17: without any configuration the echoed %s.%s is %r, the documented default is %r" % (section, key, dflt, default),
+                              {"signature": {"kind": "default", "section": section, "key": key}})
+            combos = sublists(universe)
+            for ci, members in enumerate(combos):
+                for cfg_name, head in ((".pyscn.toml", "[%s]"), ("pyproject.toml", "[tool.pyscn.%s]")):
+                    kv = list(members)
+                    if len(kv) > 1 and rng.random() < 0.5:          # the order in which the file spells the members is free
+                        rng.shuffle(kv)
+                        if kv != members:
+                            hist["list_values_reordered"] += 1
+                    cfg = (head % section) + "\n%s = [%s]\n" % (key, ", ".join(json.dumps(m) for m in kv))
+                    data, err = analyze(root, "proj", cfg_text=cfg, cfg_name=cfg_name)
+                    hist["cells_list_key"] += 1
+                    outside = sorted(set(kv) - set(default))
+                    if outside:
+                        hist["list_values_with_non_default_member"] += 1
+                    if sorted(kv) == sorted(default):
+                        hist["list_values_equal_default"] += 1
+                    sig = {"kind": "file-list-key", "section": section, "key": key, "equals_default": sorted(kv) == sorted(default),
+                           "has_member_outside_default": bool(outside), "only_members_outside_default": not (set(kv) & set(default))}
+                    if data is None:
+                        res.violation("C17: analyze fails with %s %s = %s in %s: %s" % (head % section, key, json.dumps(kv), cfg_name, err[-200:]),
+                                      {"signature": dict(sig, kind="error"), "config": cfg, "config_file": cfg_name, "source": SRC})
+                        continue
+                    try:
+                        got = read(data)
+                    except Exception:
+                        got = None
+                    nontrivial.add((section, key, ",".join(kv), cfg_name))
+                    if got is None or sorted(set(got)) != sorted(set(kv)):
+                        k = C.classify(PID, sig)
+                        what = "C17: %s %s = %s is present in %s, the effective list is %r (members lost %s, members added %s; default %r)" % (
+                            head % section, key, json.dumps(kv), cfg_name, got, sorted(set(kv) - set(got or [])), sorted(set(got or []) - set(kv)), default)
+                        if k:
+                            res.known_finding(k, "(%s)" % what)
+                        else:
+                            res.violation(what, {"signature": sig, "config": cfg, "config_file": cfg_name, "args": ["analyze", "--json", "proj"], "source": SRC})
+                    # the observable effect of the same list: no reported clone pair is of a kind that the file does not enable
+                    for pr in (data.get("clone") or {}).get("clone_pairs") or []:
+                        hist["list_pairs_checked"] += 1
+                        t = pr.get("type")
+                        if isinstance(t, int) and "type%d" % t in universe and "type%d" % t not in kv:
+                            res.violation("C17: %s %s = %s in %s, yet a clone pair of type %d is reported" % (head % section, key, json.dumps(kv), cfg_name, t),
+                                          {"signature": dict(sig, kind="file-list-key-effect"), "config": cfg, "config_file": cfg_name, "source": SRC})
+                            break
         # ---- `check`: --max-complexity vs [complexity] max_complexity vs 10 (observable: the exit status) ------------------------------------
         M = max(f["Metrics"]["Complexity"] for f in base["complexity"]["Functions"])
         for fv in (None, 10, M - 1, M):
@@ -471,19 +543,20 @@ def run(tier, seed, replay=None):
     if not ps.ok and not any(fi for _, _, fi in res.violations):
         res.violation("proof obligation or tie broken: " + "; ".join(ps.broken)[:1500], {"broken": ps.broken}, found_input=False)
     res.coverage.update({
-        "evaluations": hist["cells_both"] + hist["cells_file_only"] + hist["discovery_cases"] + hist["init_cases"] + hist["check_cells"] + hist["explicit_config_cases"] + hist["check_via_link"],
+        "evaluations": hist["cells_both"] + hist["cells_file_only"] + hist["discovery_cases"] + hist["init_cases"] + hist["check_cells"] + hist["explicit_config_cases"] + hist["check_via_link"] + hist["cells_list_key"],
         "distinct_nontrivial": len(nontrivial),
         "rule": "full matrix on the real binary: every option with a flag and a key (4) x flag {absent, each value incl. the default and the values NEXT TO the default (integer neighbours; +-0.0001/0.004/0.01 for fractions)} x key {absent, each value incl. default, near-default and 0}; "
-                "%d configuration-only keys x values incl. 0/false; 10 discovery layouts (.pyscn.toml / pyproject.toml at 0-2 levels above the code, both kinds, nearest) x 5 "
+                "%d configuration-only keys x values incl. 0/false; %d LIST-valued key(s) x EVERY non-empty combination of the valid members (the default list, its sub-lists, lists with members outside the default; member order shuffled per seed) x both kinds of file, effective list compared as a set; 10 discovery layouts (.pyscn.toml / pyproject.toml at 0-2 levels above the code, both kinds, nearest) x 5 "
                 "(cwd, spelling) combinations, each layout also with every configuration file placed as a SYMBOLIC LINK (to a file of another name / the same name / the other kind's name; relative and absolute) x 2 rotating spellings; "
-                "--config <file|directory> x {pyproject.toml, .pyscn.toml, custom name} x {regular file, 3 kinds of link}; check gate through a linked file x flag; pyscn init vs no file (whole report compared)" % len(FILE_ONLY),
+                "--config <file|directory> x {pyproject.toml, .pyscn.toml, custom name} x {regular file, 3 kinds of link}; check gate through a linked file x flag; pyscn init vs no file (whole report compared)" % (len(FILE_ONLY), len(LIST_KEYS)),
         "exhaustive": True,
         "exhaustive_note": "the matrices are run completely on every run",
         "samples": [{"option": "min_complexity", "flag": "--min-complexity 6", "config": "[complexity] min_complexity = 1", "expected_effective": 6},
-                    {"key": "[dead_code] context_lines = 0", "expected_effective": 0}, {"discovery": "nearest of two .pyscn.toml (mid vs top)", "expected": "mid"},
+                    {"key": "[dead_code] context_lines = 0", "expected_effective": 0},
+                    {"key": "[tool.pyscn.clones] enabled_clone_types = [\"type3\", \"type1\"]", "expected_effective": "clone.request.clone_types == {1, 3}"}, {"discovery": "nearest of two .pyscn.toml (mid vs top)", "expected": "mid"},
                     {"option": "similarity_threshold", "flag": "--clone-threshold 0.654", "config": "[clones] similarity_threshold = 0.9", "expected_effective": 0.654},
                     {"discovery": "pyproject.toml next to the code, a symbolic link to ../shared/s1/python-tooling.toml", "expected": "its [tool.pyscn.complexity] low_threshold"}],
-        "traces_validated_against_impl": hist["cells_both"] + hist["cells_file_only"] + hist["discovery_cases"] + hist["explicit_config_cases"] + hist["check_via_link"],
+        "traces_validated_against_impl": hist["cells_both"] + hist["cells_file_only"] + hist["discovery_cases"] + hist["explicit_config_cases"] + hist["check_via_link"] + hist["cells_list_key"],
         "distribution": hist,
     })
     return res.finish("proof")
